@@ -208,6 +208,19 @@ void gen_elem(const GroupVT* vt, Rng& r, const ElemSpec& sp, double* c) {
       double sg = sp.neg_hemisphere ? -1.0 : 1.0;
       for (int i = 0; i < 4; ++i) c[b.off + i] = round_scalar(vt, sg * q[i]);
     }
+    if (sp.exact) {
+      // exactly representable rotations that exp() never produces: w == +-0, or two equal components
+      const double sg = r.chance(0.5) ? 1.0 : -1.0;
+      if (b.len == 2) {
+        if (sp.exact == 1) { c[b.off] = -1.0; c[b.off + 1] = r.chance(0.5) ? 0.0 : -0.0; }
+        else { c[b.off] = 0.0; c[b.off + 1] = sg; }
+      } else {
+        const int ax = (int)r.below(3);
+        for (int i = 0; i < 4; ++i) c[b.off + i] = 0.0;
+        if (sp.exact == 1) { c[b.off + ax] = sg; c[b.off + 3] = r.chance(0.5) ? 0.0 : -0.0; }
+        else { const double h = round_scalar(vt, std::sqrt(0.5)); c[b.off + ax] = sg * h; c[b.off + 3] = h; }
+      }
+    }
     if (sp.norm_scale != 1.0)
       for (int i = 0; i < b.len; ++i) c[b.off + i] = round_scalar(vt, c[b.off + i] * sp.norm_scale);
   }
@@ -243,6 +256,7 @@ void spice_elem_spec(const GroupVT* vt, Rng& r, ElemSpec& sp) {
   else if (u < 0.14) sp.angle = 0.0;
   else if (u < 0.20) sp.angle = M_PI - std::fabs(r.logmag(1e-10, 1e-3));     // close to pi
   if (r.chance(0.12)) sp.norm_scale = 1.0 + (r.chance(0.5) ? 0.9 : -0.9) * vt->eps;
+  else if (r.chance(0.06)) sp.exact = 1 + (int)r.below(2);
 }
 
 void gen_tan(const GroupVT* vt, Rng& r, const TanSpec& sp, double* c) {
